@@ -3,6 +3,7 @@
 One harness (hws) and one model driver (wsdrv) serve the three properties: the same case streams are
 generated for each, the direct oracles are split by prefix (c12- / c13- / c15-) and the correspondence
 compares the fields each property is about."""
+from . import srcgen
 import os
 
 from . import core
@@ -88,8 +89,8 @@ PROPS = {
                     "c13_closeCode_rfc); inflation is a parameter of the specification tied to the endpoint's decompressor by the hypothesis InflAgrees; "
                     "masking direction: known finding (c13_mask_counterexample, c13_partial, c13_masked)",
             "technique": "Lean 4 proof (decoder agreement + induction over the frame list, decide over regenerated tables) + differential correspondence"},
-        "lean": ["NbioVerif.Properties.C13"], "drivers": ["wsdrv"], "harness": ["hws"],
-        "facts": [ws_facts],
+        "lean": ["NbioVerif.Properties.C13", srcgen.BRIDGE_WS], "drivers": ["wsdrv"], "harness": ["hws"],
+        "facts": [ws_facts, srcgen.src_facts],
         "runs": [_run(["err", "rfc", "len", "may", "exp", "rerr", "berr", "recv", "back"])],
         "oracles": ["c13-"],
         "rule": "same streams as C12; distinct by hash of (role, compression, limits, per-Parse outcome, RFC verdict); non-trivial iff a frame was "
@@ -111,8 +112,8 @@ PROPS = {
                     "no-progress Read is outside the reader contract (stuck) and a spinning implementation is caught by the hang oracle; "
                     "read-limit clause proved as partial (known finding ws-readlimit-first-read)",
             "technique": "Lean 4 proof (invariant by induction over the frame loop and the segment list) + differential correspondence"},
-        "lean": ["NbioVerif.Properties.C15"], "drivers": ["wsdrv"], "harness": ["hws"],
-        "facts": [ws_facts],
+        "lean": ["NbioVerif.Properties.C15", srcgen.BRIDGE_WS], "drivers": ["wsdrv"], "harness": ["hws"],
+        "facts": [ws_facts, srcgen.src_facts],
         "runs": [_run(["err", "cache", "msglen", "werr", "rerr", "berr", "rcache", "rmsglen"])],
         "oracles": ["c15-"],
         "rule": "same streams as C12; non-trivial iff bytes were retained across calls, a limit was configured and approached, or a message was refused",
